@@ -1,5 +1,9 @@
 """C11 — pure circuits evaluate to the unitary they describe.
 
+Streams: table / user-defined / rotation / ket-bra boxes, scalar boxes of both classes (scalar, sqrt) over every
+kind and Python type of data, random circuits (with scalar-rich ones), adjacent twins, calling conventions of
+Circuit.eval / Sum.eval (batches with pure and mixed companions, mixed= flag), rewire.
+
 Correspondence (exact): every array / evaluation pulled from the running discopy is recognised in
 ℤ[ζ₈]/2^e (tolerance 1e-9 for the recognition only) and compared token by token with the compiled
 Lean model (lean/Model/Gates.lean through `dvdriver`).
@@ -14,7 +18,7 @@ import numpy as np
 import cyc8
 import qgen
 from common import Driver, Report, lean_obligations, err_class
-from qgen import (masked_io, has_f17, has_f2_target, QGen, build, tok, show, std_io, arity, kinds, build_circuit, tok_circuit,
+from qgen import (masked_io, has_f17, has_f2_target, has_f4k, QGen, build, tok, show, std_io, arity, kinds, build_circuit, tok_circuit,
                   show_circuit, product_io, eval_io, close)
 
 PROP = "C11"
@@ -55,6 +59,27 @@ def acts_on(op_io, n, a, b):
     return t.reshape(2 ** n, 2 ** n)
 
 
+def norm_head(g):
+    """Head of the descriptor under any number of `.dagger()`s."""
+    while g[0] == "D":
+        g = g[1]
+    return g[0]
+
+
+NOT_GATES = ("Ket", "Bra", "scalar", "sqrt")
+
+
+def scalar_rich(gen, w):
+    """Gate chooser for the scalar-rich circuits: every second box a scalar box of either class."""
+    if gen.rng.random() < 0.45:
+        return gen.scalar()
+    saved, gen.gateset = gen.gateset, None
+    try:
+        return gen.pick(w)
+    finally:
+        gen.gateset = saved
+
+
 # --------------------------------------------------------------------------- the streams
 
 class Check:
@@ -63,25 +88,57 @@ class Check:
         self.float_cmp = 0
         self.switches = drv.ask("switches")
 
+    def cmp_model(self, stream, case, real, rows, cols, model):
+        """Exact comparison with the model's answer; if some entry has left the window in which floats are
+        recognised in Z[zeta_8]/2^e (large products of scalars), compare numerically with the parsed model
+        matrix instead (relative tolerance, counted)."""
+        r = rec(real, rows, cols)
+        self.rep.count("exact_model_comparisons")
+        if r == model:
+            return
+        if r == "unrepresentable" and model.startswith("ok"):
+            want = cyc8.parse_matrix(model)
+            self.rep.count("exact_fallback_to_float")
+            if close(np.asarray(real, dtype=complex).reshape(want.shape), want,
+                     TOL * max(1.0, float(np.max(np.abs(want))))):
+                return
+        self.rep.disagree(stream, case, r[:300], model[:300])
+
     # ---- single boxes: correspondence + per-gate oracle
 
     def one_gate(self, g, stream):
         rep = self.rep
         case = dict(gate=show(g), stream=stream)
-        obj = build(g)
+        try:
+            obj = build(g)
+        except Exception as exc:
+            rep.case("%s|%s" % (stream, show(g)), True)
+            rep.fail("gate_eval_raises:" + kinds(g)[-1], case, "building the box raised " + err_class(exc))
+            return
         d, c = arity(g)
         exact = g[0] != "R" or g[2] is not None
         for kd in kinds(g):
             rep.count("kind:" + kd)
         key = "%s|%s" % (stream, show(g))
         rep.case(key, not (g[0] == "R" and g[3] == 0))
-        real = eval_io(obj)
+        try:
+            real = eval_io(obj)
+            dag = eval_io(obj.dagger())
+        except Exception as exc:
+            rep.fail("gate_eval_raises:" + kinds(g)[-1], case, "eval / dagger().eval() raised " + err_class(exc))
+            return
         if exact and self._exact(g):
-            lines = ["geval " + tok(g), "garr " + tok(g)]
-            m_eval, m_arr = self.drv.ask_many(lines)
+            lines = ["geval " + tok(g), "garr " + tok(g), "geval D " + tok(g), "sqrtexact " + tok(g)]
+            m_eval, m_arr, m_dag, m_root = self.drv.ask_many(lines)
             r_eval = rec(real, 2 ** d, 2 ** c)
             if r_eval != m_eval:
                 rep.disagree("geval", case, r_eval, m_eval)
+            r_dag = rec(dag, 2 ** c, 2 ** d)
+            if r_dag != m_dag:
+                rep.disagree("geval-dagger", case, r_dag, m_dag)
+            if m_root != "ok 1":
+                rep.disagree("sqrt-root-not-exact(harness)", case, "ok 1", m_root)
+            rep.count("exact_model_comparisons")
             if hasattr(obj, "array"):          # Swap has none: the functor moves axes instead
                 arr = np.asarray(obj.array, dtype=complex)
                 r_arr = rec(arr, 2 ** d, 2 ** c)
@@ -92,7 +149,11 @@ class Check:
         want = std_io(g)
         self.float_cmp += 1
         if not close(real, want, TOL):
-            if has_f17(g) and close(real, masked_io(g, f17=True), TOL):
+            if has_f4k(g) and close(real, masked_io(g, f4k=True), TOL):
+                rep.fail("dagger_eval_not_adjoint:sqrt(negative real)", case,
+                         "sqrt(x).dagger() is sqrt(x) itself for a negative real x: it evaluates to i*sqrt|x|, "
+                         "not to the conjugate -i*sqrt|x|")
+            elif has_f17(g) and close(real, masked_io(g, f17=True), TOL):
                 rep.fail("gate_is_transpose_of_tket:" + ("Y" if "Y" in kinds(g) else "Ry"), case,
                          "evaluates to the transpose of the standard matrix in [input, output] order")
             elif has_f2_target(g) and close(real, masked_io(g, f17=True, f2=True), TOL):
@@ -102,17 +163,20 @@ class Check:
                 rep.fail("gate_differs_from_standard_matrix:" + kinds(g)[-1], case,
                          "max |Δ| = %.3g" % float(np.max(np.abs(real - want))))
         # oracle 2: dagger of the box evaluates to the conjugate transpose of its evaluation
-        dag = eval_io(obj.dagger())
         self.float_cmp += 1
         if not close(dag, real.conj().T, TOL):
-            if has_f2_target(g):
+            if has_f4k(g) and close(dag, masked_io(("D", g), f4k=True), TOL):
+                rep.fail("dagger_eval_not_adjoint:sqrt(negative real)", case,
+                         "sqrt(x).dagger() is sqrt(x) itself for a negative real x: c.dagger().eval() == c.eval() "
+                         "= i*sqrt|x| != c.eval().dagger()")
+            elif has_f2_target(g):
                 rep.fail("dagger_eval_not_adjoint:Controlled(flagged QuantumGate)", case,
                          "c.dagger().eval() != c.eval().dagger()")
             else:
                 rep.fail("dagger_eval_not_adjoint:" + kinds(g)[0], case,
                          "c.dagger().eval() != c.eval().dagger()")
         # oracle 3: gates are unitary, kets/bras are basis vectors (covered by std_io), controlled spec
-        if g[0] not in "KBS" and d == c:
+        if g[0] not in "KBSZ" and norm_head(g) not in "KBSZ" and d == c:
             self.float_cmp += 1
             if not close(real @ real.conj().T, np.eye(2 ** d), TOL):
                 rep.fail("gate_not_unitary:" + kinds(g)[-1], case, "U U† != 1")
@@ -133,7 +197,7 @@ class Check:
             return g[2] is not None and (g[1] == "CU1" or g[2] % 2 == 0)
         if k in "DC":
             return self._exact(g[1])
-        if k == "S":
+        if k in "SZ":
             return g[1] is not None
         return True
 
@@ -209,36 +273,49 @@ class Check:
 
     # ---- circuits
 
-    def circuit_case(self, exact, given=None, twins=0.0, unitary=False, stream="circuit"):
+    def circuit_case(self, exact, given=None, twins=0.0, unitary=False, stream="circuit", gateset=None):
         rep = self.rep
         if given is None:
-            gen = QGen(random.Random(self.rng.getrandbits(64)), exact=exact)
+            gen = QGen(random.Random(self.rng.getrandbits(64)), exact=exact, roots=True, gateset=gateset)
             n_in, layers = gen.circuit(twins=twins, unitary=unitary)
         else:
             n_in, layers = given
         rep.count("stream:" + stream)
         case = dict(circuit=show_circuit(n_in, layers), exact=exact, stream=stream)
-        c = build_circuit(n_in, layers)
-        n_out = len(c.cod)
-        real = eval_io(c)
+        try:
+            c = build_circuit(n_in, layers)
+            n_out = len(c.cod)
+            real = eval_io(c)
+            real_dag = eval_io(c.dagger())
+            real_echo = eval_io(c >> c.dagger())
+        except Exception as exc:
+            rep.case(("x|" if exact else "f|") + case["circuit"], len(layers) >= 2)
+            rep.fail("circuit_eval_raises", case, "building / evaluating the circuit, its dagger or "
+                     "c >> c.dagger() raised " + err_class(exc))
+            return
         allk = [k for _, g, _ in layers for k in kinds(g)]
+        for _, g, _ in layers:
+            if norm_head(g) in "SZ":
+                data = g
+                while data[0] == "D":
+                    data = data[1]
+                z = complex(data[3] if data[0] == "Z" else data[2])
+                rep.count("scalar_box_data:%s:%s" % (
+                    "sqrt" if data[0] == "Z" else "scalar",
+                    "zero" if z == 0 else "non-real" if z.imag != 0 else "negative" if z.real < 0 else "positive"))
+        f4k = any(has_f4k(g) for _, g, _ in layers)
         for k in set(allk):
             rep.count("circuit_has:" + k)
         rep.count("circuit_depth:%d" % len(layers))
         rep.count("circuit_wires_in:%d" % n_in)
         rep.case(("x|" if exact else "f|") + case["circuit"], len(layers) >= 2)
         rep.sample(case)
-        real_dag = eval_io(c.dagger())
         if exact:
             lines = ["ceval %d %s" % (n_in, tok_circuit(layers)),
                      "cdageval %d %s" % (n_in, tok_circuit(layers))]
             m1, m2 = self.drv.ask_many(lines)
-            r1, r2 = rec(real, 2 ** n_in, 2 ** n_out), rec(real_dag, 2 ** n_out, 2 ** n_in)
-            if r1 != m1:
-                rep.disagree("ceval", case, r1[:300], m1[:300])
-            if r2 != m2:
-                rep.disagree("cdageval", case, r2[:300], m2[:300])
-            rep.count("exact_model_comparisons", 2)
+            self.cmp_model("ceval", case, real, 2 ** n_in, 2 ** n_out, m1)
+            self.cmp_model("cdageval", case, real_dag, 2 ** n_out, 2 ** n_in, m2)
         # oracle: ordered product of the standard matrices of its gates on the stated qubits
         want = product_io(n_in, layers, std_io)
         self.float_cmp += 1
@@ -266,25 +343,29 @@ class Check:
         # transpose"), which is the identity for a circuit of gates only.  Here every box is directly
         # followed, at the seam, by its own dagger - boxes that discopy's `==` may confuse.
         echo_layers = layers + [(l, ("D", g), r) for l, g, r in reversed(layers)]
-        real_echo = eval_io(c >> c.dagger())
+        rev = [(l, ("D", g), r) for l, g, r in reversed(layers)]
         rep.count("echo_checked")
         if exact:
             m3 = self.drv.ask("ceval %d %s" % (n_in, tok_circuit(echo_layers)))
-            r3 = rec(real_echo, 2 ** n_in, 2 ** n_in)
-            rep.count("exact_model_comparisons")
-            if r3 != m3:
-                rep.disagree("ceval-echo", case, r3[:300], m3[:300])
+            self.cmp_model("ceval-echo", case, real_echo, 2 ** n_in, 2 ** n_in, m3)
         self.float_cmp += 1
-        gates_only = not any(k in ("Ket", "Bra", "scalar") for k in allk)
+        gates_only = not any(k in NOT_GATES for k in allk)
+        scale = max(1.0, float(np.max(np.abs(want))) ** 2)
         if gates_only and not close(real_echo, np.eye(2 ** n_in), TOL):
             rep.fail("circuit_then_dagger_not_identity", case,
                      "(c >> c.dagger()).eval() is not the identity although c consists of gates only; "
                      "max |Δ| = %.3g" % float(np.max(np.abs(real_echo - np.eye(2 ** n_in)))))
-        elif not close(real_echo, want @ want.conj().T, TOL * max(1.0, float(np.max(np.abs(want))) ** 2)):
-            rep.fail("circuit_then_dagger_not_product", case,
-                     "(c >> c.dagger()).eval() != eval(c) . eval(c)^H computed independently")
+        elif not close(real_echo, want @ want.conj().T, TOL * scale):
+            if f4k and close(real_echo, want @ product_io(n_out, rev, lambda g: masked_io(g, f4k=True)),
+                             TOL * scale):
+                rep.fail("circuit_dagger_not_adjoint:has sqrt(negative real)", case,
+                         "(c >> c.dagger()).eval() != eval(c) . eval(c)^H: sqrt(x) of a negative real x is its "
+                         "own dagger")
+            else:
+                rep.fail("circuit_then_dagger_not_product", case,
+                         "(c >> c.dagger()).eval() != eval(c) . eval(c)^H computed independently")
         # oracle: unitary when there is no ket / bra / scalar
-        if not any(k in ("Ket", "Bra", "scalar") for k in allk):
+        if gates_only:
             rep.count("unitarity_checked")
             self.float_cmp += 1
             if not close(real @ real.conj().T, np.eye(2 ** n_in), TOL):
@@ -292,9 +373,11 @@ class Check:
         # oracle: dagger
         self.float_cmp += 1
         if not close(real_dag, real.conj().T, TOL):
-            rev = [(l, ("D", g), r) for l, g, r in reversed(layers)]
             predicted = product_io(n_out, rev, lambda g: masked_io(g, True, True))
-            if any(has_f2_target(g) for _, g, _ in layers) and close(real_dag, predicted, TOL):
+            if f4k and close(real_dag, product_io(n_out, rev, lambda g: masked_io(g, f4k=True)), TOL * scale):
+                rep.fail("circuit_dagger_not_adjoint:has sqrt(negative real)", case,
+                         "c.dagger().eval() != c.eval().dagger(): sqrt(x) of a negative real x is its own dagger")
+            elif any(has_f2_target(g) for _, g, _ in layers) and close(real_dag, predicted, TOL):
                 rep.fail("circuit_dagger_not_adjoint:has Controlled(flagged QuantumGate)", case,
                          "c.dagger().eval() != c.eval().dagger()")
             else:
@@ -335,6 +418,244 @@ class Check:
                     self.circuit_case(False, given=(2, [(0, ca, 0), (0, cb, 0)]), stream="adjacent-near-phase")
                     self.circuit_case(False, given=(3, [(0, ca, 1), (1, cb, 0), (0, ("D", ca), 1)]),
                                       stream="adjacent-near-phase")
+
+    # ---- scalar boxes of both classes, every kind of data, every Python type of the data
+
+    def scalar_boxes(self, n_float):
+        rep = self.rep
+        descs = []
+        for t in qgen.EXACT_SCALARS + qgen.EXACT_SCALARS_EXTRA:
+            types = ["auto", "complex", "np.complex128"]
+            if cyc8.is_real(t):
+                types.append("np.float64")
+            for ty in types:
+                descs.append(("S", t, qgen.number_of(t, ty)))
+        for w in qgen.EXACT_ROOTS:
+            zt = cyc8.mul(w, w)
+            types = ["auto", "complex", "np.complex128"]
+            if cyc8.is_real(zt) and cyc8.to_complex(zt).real >= 0:
+                types += ["float", "np.float64"]      # numpy's float64(-4) ** .5 is nan: not a number to describe
+            for ty in types:
+                descs.append(qgen.sqrt_exact(w, ty))
+        gen = QGen(random.Random(self.rng.getrandbits(64)), exact=False, roots=True)
+        for _ in range(n_float):
+            descs.append(gen.sqrt_box())
+            descs.append(gen.scalar())
+        seen = set()
+        for g in descs:
+            if show(g) in seen:
+                continue
+            seen.add(show(g))
+            rep.count("scalar_box:%s:%s" % (kinds(g)[0], "exact" if g[1] is not None else "float"))
+            for h in (g, ("D", g), ("D", ("D", g))):
+                self.one_gate(h, "scalar-box")
+
+    # ---- calling conventions of Circuit.eval / Sum.eval (numpy route): a pure circuit evaluates to the
+    #      unitary it describes - the same Tensor - whatever it is batched with and however it is called
+
+    def companion(self, rng, pure_layers):
+        """A circuit to batch pure circuits with: mixed (measuring, discarding, mixed states, encoding, bits
+        next to qubits) or classical-only (not mixed).  Returns (label, circuit)."""
+        from discopy.quantum import (Measure, Discard, MixedState, Encode, Bits, Ket, H, X, CX, Id, bit, Copy)
+        n_in, layers = pure_layers
+        base = build_circuit(n_in, layers)
+        n_out = len(base.cod)
+        kind = rng.choice(["measure", "measure-base", "discard-base", "classical", "mixedstate", "encode",
+                           "bits-only", "copy", "measure-keep"])
+        if kind == "measure-base" and n_out >= 1:
+            return kind, base >> Measure(n_out)
+        if kind == "discard-base" and n_out >= 1:
+            k = rng.randrange(n_out)
+            return kind, base >> Id(k) @ Discard() @ Id(n_out - k - 1)
+        if kind == "classical":
+            return kind, Bits(rng.randint(0, 1)) @ Ket(0) >> Discard(bit) @ X
+        if kind == "mixedstate":
+            return kind, MixedState() >> H
+        if kind == "encode":
+            return kind, Bits(rng.randint(0, 1)) >> Encode()
+        if kind == "bits-only":
+            return kind, Bits(rng.randint(0, 1), rng.randint(0, 1))
+        if kind == "copy":
+            return kind, Bits(rng.randint(0, 1)) >> Copy()
+        if kind == "measure-keep":
+            return kind, Ket(0, 0) >> H @ Id(1) >> CX >> Measure(destructive=False) @ Id(1)
+        return "measure", Ket(0) >> H >> Measure()
+
+    def eval_conventions(self, n_batches, n_sums):
+        from discopy.quantum import Circuit, CQMap
+        from discopy.tensor import Tensor
+        rep, rng = self.rep, self.rng
+
+        def tname(x):
+            return "C" if isinstance(x, CQMap) else "T" if isinstance(x, Tensor) else type(x).__name__
+
+        def pure_member(exact, small=False):
+            """`small`: the circuit will be evaluated as a CQ map (doubled: keep it to <= 2 wires, depth <= 2)."""
+            gen = QGen(random.Random(rng.getrandbits(64)), exact=exact, roots=True, max_wires=2 if small else 3)
+            return gen.circuit(depth=gen.rng.randint(1, 2 if small else 5), unitary=(gen.rng.random() < 0.4))
+
+        def check_pure(res, n_in, layers, exact, case, where):
+            """The property for one pure circuit of a call: a Tensor (not a CQ map) holding the ordered product."""
+            want = product_io(n_in, layers, std_io)
+            self.float_cmp += 1
+            if isinstance(res, CQMap) or not isinstance(res, Tensor):
+                rep.fail("pure_eval_not_unitary_tensor:" + where, case,
+                         "the pure circuit %s came back as a %s, not as the Tensor of the unitary it describes"
+                         % (show_circuit(n_in, layers), type(res).__name__))
+                return
+            arr = np.asarray(res.array, dtype=complex)
+            if arr.size != want.size or not close(arr.reshape(want.shape), want,
+                                                  TOL * max(1.0, float(np.max(np.abs(want))))):
+                rep.fail("pure_eval_not_unitary_tensor:" + where, case,
+                         "the Tensor returned for the pure circuit %s is not the ordered product of its gates"
+                         % show_circuit(n_in, layers))
+                return
+            if exact:
+                model = self.drv.ask("ceval %d %s" % (n_in, tok_circuit(layers)))
+                self.cmp_model("ceval-in-batch", case, arr, want.shape[0], want.shape[1], model)
+
+        # -- batches
+        for b in range(n_batches):
+            k = rng.choice([0, 0, 1, 1, 2, 2, 3, 4])
+            flag = rng.choice([None, None, None, False, False, True])
+            conv = rng.choice(["method", "method", "backend=None", "unbound"] + (["positional-None"] if k == 0 else []))
+            members = []        # (label, circuit, pure_layers | None, exact)
+            lead_mixed = rng.random() < 0.6 and k > 0
+            plan = []
+            for i in range(k + 1):
+                exact = rng.random() < 0.5
+                want_mixed = lead_mixed if i == 0 else rng.random() < 0.35
+                plan.append((exact, want_mixed, pure_member(exact, small=(flag is True or want_mixed)),
+                             random.Random(rng.getrandbits(64))))
+            try:
+                for exact, want_mixed, pl, sub in plan:
+                    if want_mixed:
+                        label, c = self.companion(sub, pl)
+                        members.append((label, c, None, False))
+                    else:
+                        members.append(("pure", build_circuit(*pl), pl, exact))
+            except Exception as exc:
+                rep.case("conv|%d" % b, True)
+                rep.fail("eval_convention_raises:building", dict(stream="eval-conventions", batch=[
+                    show_circuit(*p[2]) for p in plan]), "building the circuits raised " + err_class(exc))
+                continue
+            shows = [show_circuit(*m[2]) if m[2] is not None else "<%s: %s>" % (m[0], m[1]) for m in members]
+            kw = {} if flag is None else {"mixed": flag}
+            case = dict(stream="eval-conventions", convention=conv, mixed=repr(flag), batch=shows)
+            cs = [m[1] for m in members]
+            try:
+                mixed_flags = [bool(c.is_mixed) for c in cs]
+                if conv == "method":
+                    out = cs[0].eval(*cs[1:], **kw)
+                elif conv == "backend=None":
+                    out = cs[0].eval(*cs[1:], backend=None, **kw)
+                elif conv == "unbound":
+                    out = Circuit.eval(*cs, **kw)
+                else:
+                    out = cs[0].eval(None, **kw)
+            except Exception as exc:
+                rep.case("conv|%d" % b, True)
+                rep.fail("eval_convention_raises:" + conv, case, "raised " + err_class(exc))
+                continue
+            results = list(out) if k > 0 and isinstance(out, (list, tuple)) else [out]
+            lead = "mixed-leader" if mixed_flags[0] else "pure-leader"
+            n_pure = sum(1 for m in members if m[2] is not None)
+            rep.case("conv|%s|%s|%r|%s" % (conv, lead, flag, "|".join(shows)), k > 0)
+            rep.count("eval_convention:" + conv)
+            rep.count("eval_batch_size:%d" % (k + 1))
+            rep.count("eval_mixed_flag:%r" % (flag,))
+            if k > 0:
+                rep.count("eval_batch:%s,%s" % (lead, "pure-followers" if n_pure - (0 if mixed_flags[0] else 1) > 0
+                                                else "no-pure-follower"))
+            if len(results) != k + 1:
+                rep.fail("eval_batch_wrong_length", case, "%d results for %d circuits" % (len(results), k + 1))
+                continue
+            # correspondence with the model of circuit.py:247-253: which functor evaluated which circuit
+            model = self.drv.ask("evalmodes %d %d %d %s" % (
+                1 if flag else 0, mixed_flags[0], k, " ".join("01"[m] for m in mixed_flags[1:])))
+            real = "ok %d %s" % (len(results), " ".join(tname(r) for r in results))
+            rep.count("exact_model_comparisons")
+            if real.strip() != model.strip():
+                rep.disagree("evalmodes", case, real, model)
+            # the property, for every pure circuit of the call
+            if flag is not True:
+                for i, (label, c, pl, exact) in enumerate(members):
+                    if pl is None:
+                        continue
+                    where = "alone" if k == 0 else ("batched-behind-mixed-leader" if mixed_flags[0] and i > 0
+                                                     else "batched")
+                    rep.count("pure_in_call:" + where)
+                    check_pure(results[i], pl[0], pl[1], exact, dict(case, position=i), where)
+                    # second use of the same object, alone, after the batch: still the same Tensor
+                    try:
+                        again = c.eval()
+                        same = not isinstance(again, CQMap) and close(
+                            np.asarray(again.array, dtype=complex).reshape(-1),
+                            np.asarray(getattr(results[i], "array", [np.nan]), dtype=complex).reshape(-1), TOL)
+                    except Exception as exc:
+                        rep.fail("eval_convention_raises:second-use", dict(case, position=i), err_class(exc))
+                        continue
+                    if not same and not isinstance(results[i], CQMap):
+                        rep.fail("pure_eval_differs_between_calls", dict(case, position=i),
+                                 "c.eval() alone differs from the result for c inside the batch")
+        # -- sums
+        for b in range(n_sums):
+            n_terms = rng.choice([1, 2, 2, 3])
+            flag = rng.choice([None, None, False, True])
+            with_mixed = rng.random() < 0.3
+            small = with_mixed or flag is True          # evaluated as CQ maps (doubled)
+            n = rng.randint(1, 2 if small else 3)
+            terms, pls = [], []
+            for i in range(n_terms):
+                gen = QGen(random.Random(rng.getrandbits(64)), exact=(rng.random() < 0.5), roots=True, max_wires=3)
+                pls.append(gen.circuit(n_in=n, depth=gen.rng.randint(1, 2 if small else 4), unitary=True))
+            try:
+                for i, pl in enumerate(list(pls)):
+                    c = build_circuit(*pl)
+                    if with_mixed and i == n_terms - 1:
+                        from discopy.quantum import Discard, MixedState, Id
+                        c = c >> Id(n - 1) @ (Discard() >> MixedState())
+                        pls[i] = None
+                    terms.append(c)
+            except Exception as exc:
+                rep.case("sum|%d" % b, True)
+                rep.fail("eval_convention_raises:building", dict(stream="sum-eval", terms=[
+                    show_circuit(*p) for p in pls if p is not None]), "building the terms raised " + err_class(exc))
+                continue
+            shows = [show_circuit(*pl) if pl is not None else "<mixed: %s>" % c for pl, c in zip(pls, terms)]
+            kw = {} if flag is None else {"mixed": flag}
+            conv = rng.choice(["sum.eval()", "sum.eval(backend=None)"])
+            case = dict(stream="sum-eval", convention=conv, mixed=repr(flag), terms=shows)
+            try:
+                total = terms[0]
+                if n_terms == 1:
+                    total = Circuit.sum([terms[0]])
+                for t in terms[1:]:
+                    total = total + t
+                mixed_flags = [bool(t.is_mixed) for t in terms]
+                res = total.eval(**kw) if conv == "sum.eval()" else total.eval(backend=None, **kw)
+            except Exception as exc:
+                rep.case("sum|%d" % b, True)
+                rep.fail("eval_convention_raises:Sum.eval", case, "raised " + err_class(exc))
+                continue
+            rep.case("sum|%s|%r|%s" % (conv, flag, "|".join(shows)), n_terms > 1)
+            rep.count("sum_eval:%d-terms,%s" % (n_terms, "with-mixed-term" if with_mixed else "all-pure"))
+            model = self.drv.ask("summodes %d %d %s" % (1 if flag else 0, n_terms,
+                                                         " ".join("01"[m] for m in mixed_flags)))
+            modes = model.split()[2:]
+            rep.count("exact_model_comparisons")
+            if len(set(modes)) != 1 or tname(res) != modes[0]:
+                rep.disagree("summodes", case, tname(res), model)
+            if flag is not True and not with_mixed:
+                want = sum(product_io(n, pl[1], std_io) for pl in pls)
+                self.float_cmp += 1
+                if isinstance(res, CQMap) or not isinstance(res, Tensor):
+                    rep.fail("pure_sum_eval_not_sum_of_unitaries", case, "came back as a " + type(res).__name__)
+                else:
+                    arr = np.asarray(res.array, dtype=complex)
+                    if arr.size != want.size or not close(arr.reshape(want.shape), want, TOL * n_terms):
+                        rep.fail("pure_sum_eval_not_sum_of_unitaries", case,
+                                 "the sum of pure circuits does not evaluate to the sum of their unitaries")
 
     # ---- rewire
 
@@ -404,7 +725,18 @@ def run(tier, seed, replay=None):
                 "exactly with the model) and half at random float phases; (3) rewire(op, a, b) for "
                 "all (a, b) with a, b < 4 (5 thorough) and 12 two-qubit ops. Non-trivial = a rotation "
                 "at a non-zero phase, any other single gate, a circuit of >= 2 layers, a rewiring "
-                "with a != b; distinct by printed form")
+                "with a != b; distinct by printed form; "
+                "(4) scalar boxes of both classes - scalar(z) and the square-root scalar sqrt(z) - alone, daggered, "
+                "doubly daggered, inside the random circuits and in scalar-rich circuits (every second box a scalar "
+                "box): data zero, positive, NEGATIVE real, purely imaginary, Gaussian in every quadrant, irrational, "
+                "next to the branch cut; typed as int, float, complex, numpy.complex128, numpy.float64; exact stream "
+                "z = w^2 for 23 roots w in Z[zeta_8]/2^e (the model is given the principal root and the driver "
+                "confirms root^2 = z), float stream random complex z against cmath.sqrt; "
+                "(5) calling conventions of Circuit.eval on the numpy route: c.eval(), c.eval(None), "
+                "c.eval(backend=None), Circuit.eval(c, ...), batches first.eval(c1, ..., ck) of 1-5 circuits with "
+                "every mix of pure / mixed (measuring, discarding, mixed state, encoding, bits next to qubits) / "
+                "classical-only leaders and followers, mixed= absent / False / True, each pure circuit re-evaluated "
+                "alone afterwards; Sum.eval over 1-3 terms (all pure, or one mixed term)")
     rep.partial = [
         "whole-circuit statements (product of unitaries is unitary, dagger of a product) are proved in Lean "
         "for every well-typed circuit over the gate set (GATES, rotations at phase indices n/8, Controlled(g), "
@@ -414,7 +746,17 @@ def run(tier, seed, replay=None):
         "are covered by correspondence and the numpy oracle only",
         "rewire_spec is proved by `decide` for all (a, b) with a, b < 4 on one generic 4x4 matrix with 16 "
         "distinct entries, not for a symbolic op",
-        "the tket matrices are transcribed (cross-checked against pytket at run time)"]
+        "the tket matrices are transcribed (cross-checked against pytket at run time)",
+        "square-root scalars: Z[zeta_8][1/2] is not closed under roots, so the model's sqrt box carries the value of "
+        "z ** .5 with it (sqrt_dagger is a theorem for every z, r; that discopy's `data ** .5` IS that principal "
+        "root is checked by the exact correspondence on 23 roots and by the float oracle against cmath.sqrt); "
+        "sqrt(z).dagger() for a negative real z violates the property (finding F4k, witnessed in Lean)",
+        "calling conventions: the model covers only WHICH functor evaluates each circuit of a call (evalModes / "
+        "sumModes, circuit.py:247-253, 657-664, compared with the types of the results); the values of pure "
+        "circuits are compared with evalCirc and the oracle, the values of mixed companions are not checked here "
+        "(C12); the backend route (circuit.eval(backend)) is C13/C14's",
+        "exact comparison falls back to a numeric comparison with the model's exact answer (relative 1e-9, counted "
+        "as exact_fallback_to_float) when a product of scalars leaves the window in which floats are recognised"]
     rep.assumptions = [
         "float_oracle: comparisons at random real phases use tolerance 1e-9 against an independent numpy "
         "formula and against pytket 2.18.3 unitaries (tket angle = 2 x discopy phase)",
@@ -462,12 +804,17 @@ def run(tier, seed, replay=None):
                 chk.one_gate(("B", bits), "ketbra")
         for t in qgen.EXACT_SCALARS:
             chk.one_gate(("S", t, cyc8.to_complex(t)), "scalar")
+        chk.scalar_boxes(40 if not thorough else 600)
         # 2. circuits
         n_circ = 600 if not thorough else 6000
         for k in range(n_circ):
             chk.circuit_case(exact=(k % 2 == 0), twins=(0.4 if k % 3 == 0 else 0.0),
                              unitary=(k % 4 >= 2), stream="circuit")
+        for k in range(150 if not thorough else 1500):
+            chk.circuit_case(exact=(k % 2 == 0), stream="scalar-rich-circuit", gateset=scalar_rich)
         chk.adjacent_pairs(3 if not thorough else 25)
+        # 2b. calling conventions
+        chk.eval_conventions(120 if not thorough else 1500, 40 if not thorough else 500)
         # 3. rewire
         chk.rewire_cases(4 if not thorough else 5)
         rep.extra["float_oracle_comparisons"] = chk.float_cmp
